@@ -282,7 +282,9 @@ PEER_KINDS = {
 class Rest(object):
     """an Established session with a peer of the given kind + Flask test client"""
 
-    def __init__(self, kind='as4', remote_as=65002):
+    def __init__(self, kind='as4', remote_as=65002, history=()):
+        """`history`: kinds of the peers of EARLIER sessions of the same agent (each established, then dropped by the peer;
+        the agent reconnects after its idle-hold time) before the session the requests are made in"""
         self.kind = kind
         self.caps = PEER_KINDS[kind][1]
         self.sim = S.Sim({'remote_as': remote_as})
@@ -292,11 +294,30 @@ class Rest(object):
         cfg.CONF.set_override('username', 'admin', group='rest')
         cfg.CONF.set_override('password', 'admin', group='rest')
         cfg.CONF.bgp.running_config = rc
-        o = None
-        for ev in ({'k': 'boot'}, {'k': 'connok', 'c': 0},
-                   {'k': 'chunk', 'c': 0, 'hex': SG.frame(1, SG.open_body(remote_as, 90, caps=PEER_KINDS[kind][0](remote_as))).hex()},
-                   {'k': 'chunk', 'c': 0, 'hex': SG.KEEPALIVE.hex()}):
-            o = self.sim.step(ev)
+        o = self.sim.step({'k': 'boot'})
+        cid = 0
+        for n, kd in enumerate(list(history) + [kind]):
+            for ev in ({'k': 'connok', 'c': cid},
+                       {'k': 'chunk', 'c': cid, 'hex': SG.frame(1, SG.open_body(remote_as, 90, caps=PEER_KINDS[kd][0](remote_as))).hex()},
+                       {'k': 'chunk', 'c': cid, 'hex': SG.KEEPALIVE.hex()}):
+                if self.sim.enabled(ev):
+                    o = self.sim.step(ev)
+            if n < len(history):
+                o = self.sim.step({'k': 'lost', 'c': cid})
+                for _ in range(6):
+                    w = self.sim.world
+                    if any(c.state == 'connecting' for c in w.connectors):
+                        break
+                    due = [S.TIMER_NAMES.get(getattr(c.func, '__name__', None)) for c in w.due()]
+                    due = [d for d in due if d]
+                    if due:
+                        o = self.sim.step({'k': 'fire', 't': due[0]})
+                        continue
+                    times = [c.time for c in w.calls if c.time > w.now]
+                    if not times:
+                        break
+                    o = self.sim.step({'k': 'advance', 'dt': min(times) - w.now})
+                cid = len(self.sim.world.connectors) - 1
         self.state = o['state']
         self.client = app.test_client()
         remote = cfg.CONF.bgp.running_config['capability']['remote']
